@@ -432,7 +432,7 @@ func main() {
 			if t == "thorough" {
 				return 2400
 			}
-			return 400
+			return 900
 		},
 		CrashSig: "crash",
 	})
